@@ -1183,12 +1183,14 @@ func (te *TemplateEngine) cloneRun(source *Run) Run {
 
 	// 复制域字符（如果有）
 	if source.FieldChar != nil {
-		newRun.FieldChar = source.FieldChar
+		fieldChar := *source.FieldChar
+		newRun.FieldChar = &fieldChar
 	}
 
 	// 复制指令文本（如果有）
 	if source.InstrText != nil {
-		newRun.InstrText = source.InstrText
+		instrText := *source.InstrText
+		newRun.InstrText = &instrText
 	}
 
 	return newRun
